@@ -908,6 +908,22 @@ impl Clone for World {
     }
 }
 
+impl World {
+    /// What-if copy for probes and fault enumeration: same market, positions, LPs and prices, no pending fault and
+    /// an empty ledger (cheap; use `clone()` if the fork needs the token ledger too).
+    pub fn fork(&self) -> World {
+        World {
+            cfg: self.cfg.clone(),
+            market: self.market.clone(),
+            positions: self.positions.clone(),
+            lps: self.lps.clone(),
+            prices: self.prices,
+            ledger: Ledger::default(),
+            pending_fault: 0,
+        }
+    }
+}
+
 pub fn err_class(e: &Error) -> &'static str {
     match e {
         Error::Unimplemented => "err_unimplemented",
